@@ -289,11 +289,15 @@ func c08Main(args []string) int {
 	fs := flag.NewFlagSet("C08", flag.ExitOnError)
 	only := fs.String("scenario", "", "run only scenarios with this prefix")
 	procs := fs.Int("procs", runtime.NumCPU(), "worker processes")
+	replay := fs.String("replay", "", "replay a violation artefact")
 	fs.Parse(args)
 	scs := c08Scenarios()
 	if fs.NArg() > 0 && fs.Arg(0) == "worker" {
 		sched.WorkerMain(scs)
 		return 0
+	}
+	if *replay != "" {
+		return sched.ReplayFile("C08", scs, *replay)
 	}
 	rep := common.NewReport("C08", "model_checking")
 	pre, sd := 1, 2
